@@ -178,6 +178,7 @@ func planC12(c *Ctx, run int64) *Plan {
 					add(cat.Code, rate.Key, d, 6, q)  // value date later than the issue date, operation date present
 					add(cat.Code, rate.Key, d, 7, q)  // an order instead of an invoice
 					add(cat.Code, rate.Key, d, 8, q)  // a delivery, with a despatch date that is not the tax date
+					add(cat.Code, rate.Key, d, 11, q) // a line that comes to nothing (quantity 0) still gets its rate
 					add(cat.Code, rate.Key, d, 10, q) // the combo spells out the regime's own country
 					add(cat.Code, rate.Key, d, 9, q)  // no issue date (the clock supplies it), the value date is the tax date
 					if d >= "2000-01-02" {
@@ -401,7 +402,7 @@ func c12one(x *X, reg *pubRegime, loc *time.Location, cs c12case, step int, stal
 	if len(tags) > 0 {
 		doc["$tags"] = tags
 	}
-	mode := []string{"clock-00:00:00", "clock-12:00:00", "clock-23:59:59", "issue_date", "value_date", "foreign-combo", "value_date-after-issue", "order", "delivery", "value_date-on-undated-document", "own-country-spelled-out"}[op.I]
+	mode := []string{"clock-00:00:00", "clock-12:00:00", "clock-23:59:59", "issue_date", "value_date", "foreign-combo", "value_date-after-issue", "order", "delivery", "value_date-on-undated-document", "own-country-spelled-out", "zero-quantity-line"}[op.I]
 	switch op.I {
 	case 3:
 		doc["issue_date"] = D
@@ -413,6 +414,9 @@ func c12one(x *X, reg *pubRegime, loc *time.Location, cs c12case, step int, stal
 		doc["issue_date"] = dateAdd(D, -400)
 		doc["value_date"] = D
 		doc["op_date"] = dateAdd(D, -800)
+	case 11:
+		doc["issue_date"] = D
+		doc["lines"].([]any)[0].(map[string]any)["quantity"] = "0"
 	case 10:
 		doc["issue_date"] = D
 		combo["country"] = strings.ToUpper(reg.Country)
